@@ -76,6 +76,8 @@ def cases(tier, rng):
         yield x
     for x in mouse_combo_cases(tier, rng):
         yield x
+    for x in ui_chord_cases(tier, rng):
+        yield x
 
 def extra_cases(tier, rng):
     # (a) a context created while only part of a combination is down: the combination is not active, so the binding is not
@@ -127,6 +129,21 @@ def mouse_combo_cases(tier, rng):
                                    motion=(rng.choice([F(0), F(1)]), rng.choice([F(0), F(-1, 2)])), wheel=(F(0), rng.choice([F(0), F(0), F(1)]))), how=rng.randrange(3)))
         yield (scenario([0, 3], [0], cfg, steps), 'consuming-mouse-combinations')
 
+def ui_chord_cases(tier, rng):
+    # (d) key combinations while a UI element is hovered or pressed: the mouse is captured, the keyboard is not - a key
+    # with modifier keys reads exactly as without the UI (mouse bindings in the same context read inactive)
+    masks = [0, CONTROL, SHIFT | ALT, CONTROL | SHIFT, SUPER, 15]
+    for ui in ([1], [2], [0, 1]):
+        ids = Ids()
+        inputs = [key(0, m) for m in masks] + [mbutton(0, m) for m in masks[:2]] + [key(1)]
+        cfg = {(0, 0): one_ctx(ids, inputs)}
+        steps = [sop(spawn(0, [0])), frame(raw())]
+        for _ in range(14 if tier == 'thorough' else 8):
+            keys = [k for k in MODKEYS if rng.random() < .5] + [k for k in (0, 1) if rng.random() < .8]
+            steps.append(frame(raw(keys=keys, mbuttons=[0] if rng.random() < .7 else [], ui=ui if rng.random() < .8 else [])))
+            if rng.random() < .3: steps.append(frame(raw()))
+        yield (scenario([0], [0], cfg, steps), 'key-combinations-under-ui')
+
 def nontrivial(case, out):
     return 'VB true' in out or 'V1 1' in out or 'V2 ' in out
 
@@ -135,7 +152,7 @@ STAGES = [dict(name='reads', mode='app', coq='Check.C15c', profile=('Proofs.Judg
                rule='real contexts with non-consuming actions and a probe modifier on every binding; input through the real Bevy input resources/events. '
                     'Keyboard key and mouse button under all 16 modifier masks x subsets of the eight modifier keys (all 256 in thorough, 96 sampled in quick) x bound key up/down x an unrelated key up/down; '
                     'mouse motion and wheel under masks with quiet frames, three injection modes; unrestricted and single-gamepad contexts side by side with 1-3 gamepads disappearing and new ones connecting into the freed entity slot, '
-                    'axis values in [-1,1], at most one gamepad non-zero per axis; contexts created while part of a key combination is down; consuming actions in contexts tied to different gamepads; consuming actions on mouse inputs with modifier keys (Ctrl+click, Shift+wheel, Alt+motion) above listeners on keyboard and mouse combinations. non-trivial = some binding reads active; distinct = distinct scenario text')]
+                    'axis values in [-1,1], at most one gamepad non-zero per axis; contexts created while part of a key combination is down; consuming actions in contexts tied to different gamepads; consuming actions on mouse inputs with modifier keys (Ctrl+click, Shift+wheel, Alt+motion) above listeners on keyboard and mouse combinations; key combinations while a UI element is hovered or pressed. non-trivial = some binding reads active; distinct = distinct scenario text')]
 CLAUSES = {1: 'a keyboard binding read differs from "key down and, for every required modifier, left or right variant down"',
            2: 'a mouse binding read differs from its specification (button / accumulated motion / wheel under the modifier mask)',
            3: 'a gamepad binding read differs from its specification (single gamepad only; any gamepad: button on any, first non-zero axis)',
@@ -145,4 +162,4 @@ CLAUSES = {1: 'a keyboard binding read differs from "key down and, for every req
 def describe(stage, clause): return CLAUSES.get(clause, 'clause %d' % clause)
 def matches_known(k, case, verdict): return False
 TRUSTED = TRUSTED_BASE + ['Bevy ButtonInput / AccumulatedMouseMotion / Gamepad modelled as sets and maps']
-ASSUMES = ['no UI interaction in this profile; consuming actions only in the per-gamepad and mouse-combination families (judged by the consumption-aware judgement)', 'at most one gamepad reports a non-zero value per axis for unrestricted contexts (the property claims nothing else)']
+ASSUMES = ['UI interaction only in the key-combinations-under-ui family; consuming actions only in the per-gamepad and mouse-combination families (judged by the consumption-aware judgement)', 'at most one gamepad reports a non-zero value per axis for unrestricted contexts (the property claims nothing else)']
